@@ -172,6 +172,16 @@ WlsFloatVerdict(r) ==
 (* of length N; "int" integer arrays.  The answer does not depend on the convention.      *)
 WLSConvs == {"2d", "1d", "int"}
 ExpectedWLS(c) == WLS(c.A, c.b, c.s)
+(* Every operator of this module is a function of the VALUES handed over.  How an array     *)
+(* lies in memory - writable or read-only, contiguous or a strided / transposed view, native *)
+(* or byte-swapped (as read from a FITS file) - and whether a scalar comes as a Python       *)
+(* number or a 0-d array is not an input: the specified outcome is the same for every        *)
+(* layout (checked on the call records; the harness rotates the layouts over all calls of    *)
+(* computechi2, pcomp, HMF and pca_solve).  Only where an argument is documented / stated to *)
+(* be modified in place (HMF non-negative mode clamps its arrays) is read-only left out.     *)
+Layouts == <<"plain", "ro", "nc", "bs">>
+LayoutIndependent(c) == \A l \in 1..Len(Layouts) : \A k \in WLSConvs :
+   ExpectedWLS([c EXCEPT !.layout = Layouts[l], !.conv = k]) = ExpectedWLS(c)
 
 (* named deviation D-C15-1: a one-dimensional amatrix raises instead of being the M = 1 system *)
 Dev_Vec1dRaises(c) == c.conv = "1d"
